@@ -59,6 +59,27 @@ CHECKS["C18"] = dict(
     technique="TLA+-generated programs x TLA+-enumerated configuration space, fault enumeration over writer positions, validated by TLC",
     design="7/C18")
 
+CHECKS["C09"] = dict(
+    category="model_checking",
+    text="The terminals of ShellGrammar.tla carry the grammar's layout contract (blanks allowed / tokens must touch, a linebreak "
+         "may follow, this ';' may be a newline).  ShellGen!Variants applies every single transformation of the property at every "
+         "token boundary the contract allows, for every program within the deviation budget and for seeded long programs; the real "
+         "parser runs on base and variants; LayoutCheck.tla validates Norm-equality with the base parse and the exact comment list.",
+    note="Trusted: the layout contract in the grammar, ShellSkel!Norm, the projection, TLC.  Line continuations directly followed by "
+         "a comment/empty line inside a linebreak are a known finding and are probed, not generated.",
+    technique="TLA+-generated programs and layout variants, metamorphic relation validated by TLC",
+    design="7/C09")
+CHECKS["C07"] = dict(
+    category="model_checking",
+    text="Stream.tla models successive ParseCommands calls on one scanner (state: next segment, runes consumed; one action Call with "
+         "the leading-comment rule); the run of a stream is unique.  Streams are seeded random sequences of generated commands "
+         "(incl. here-documents, multi-line compounds, trailing comments, continuations), blank lines and comment lines; the driver "
+         "records the position after every real call and parses every command alone; StreamCheck validates every recorded call.",
+    note="Trusted: Stream.tla's Call (a leading comment line is skipped with the blank lines after it -- pinned by the repository's "
+         "tests), the alone-parse as oracle for results, the counting RuneScanner of the driver, TLC.",
+    technique="TLA+ state machine of the call sequence, recorded traces of the real code validated by TLC",
+    design="7/C07")
+
 NOT_APPLICABLE = {}
 
 ALL = ["C%02d" % i for i in range(1, 21)]
